@@ -44,6 +44,7 @@ class Observer:
         wf = self.run.wf
         sn = koracles.Snapshot(wf)
         self.expected = ({sn.nodes[i][1] for i in koracles.eligible_spec(sn, wf.need_threshold.value)}, sn)
+        self.stale = {sn.nodes[i][1] for i in koracles.stale_deferred(sn, wf.need_threshold.value)}
 
     def __call__(self, run, op, line, ans):
         legal = run.legal[-1]
@@ -57,6 +58,14 @@ class Observer:
             choice = ans.split(" ")[1]
             ctx.stats.count("oracle-dispatch-decisions")
             ctx.stats.count("oracle-dispatch-eligible=%d" % min(len(elig), 3))
+            if choice == "none" and getattr(self, "stale", None) and not run.sched.draining:
+                ctx.stats.count("oracle-stale-deferral")
+                ctx.finding(Finding(PID, "stale-deferral-starves-step",
+                                    f"pop_next_job returned nothing while {sorted(self.stale)} satisfy every dispatch "
+                                    f"condition except a deferral whose reason is gone (no dynamic input is unavailable)",
+                                    {"starved": sorted(self.stale),
+                                     "requests": [kcorr.decode_line(x) for x in run.lines][-15:],
+                                     "protocol_lines": list(run.lines)}))
             if choice == "none":
                 if elig and not run.sched.draining:
                     ctx.finding(Finding(PID, "eligible-step-left", f"pop_next_job returned nothing while "
